@@ -34,8 +34,10 @@ RULE = (
     "enumerates completely: 10 fast fillers + 1..2 scripted inputs (3 under a reduced option set) over the 3x3 alphabet "
     "{fast,tie,20x} x {0, retries, retries+1 failures} for original and backup, all option combinations. "
     "Non-trivial = at least one attempt really failed or at least one backup was really launched in the run; distinct = "
-    "canonical JSON of the case. Tier B: f in 0..4 injected IO faults on one chunk key (read or write) of a small real "
-    "computation on the threads executor (retries=2), optimize_graph on/off, batch_size none/2."
+    "canonical JSON of the case. Tier B: retries r in {0,1,2} given as executor option, as compute() keyword or by default, "
+    "f in {0, r, r+1, r+2} injected IO faults on one chunk key (read or write) of a small real computation on the threads "
+    "executor, optimize_graph on/off, batch_size none/2; f <= r must succeed with NumPy's values and exactly f faults consumed, "
+    "f >= r+1 must raise the injected OSError after exactly r+1 attempts."
 )
 ASSUMPTIONS = [
     "tier A replaces the worker pool by a scripted pool and the clock by a virtual clock (module attribute "
@@ -48,7 +50,7 @@ ASSUMPTIONS = [
     "empty input is outside the domain (every cubed operation has >= 1 task); inputs are distinct",
     "nothing requires a backup to be launched: an input whose only submission exhausts its retries must raise; a raise for input i "
     "is judged legitimate iff no submission of i made so far succeeded or is still pending and scripted to succeed",
-    "tier B: threads executor only, default retries=2, one faulted chunk key that exactly one task touches; a watchdog expiry is "
+    "tier B: threads executor only, retries 0..2 (option, keyword or default), one faulted chunk key that exactly one task touches; a watchdog expiry is "
     "counted as 'inconclusive', never as a violation",
 ]
 
@@ -594,11 +596,21 @@ def check_fault(case) -> Outcome:
     if case.get("batch_size"):
         opts["batch_size"] = case["batch_size"]
     og = case.get("optimize_graph", True)
-    labels = {f"B:prog={case['prog']}", f"B:op={case['op']}", f"B:f={case['f']}", f"B:optimize={int(og)}"}
+    # retries in {0,1,2}, given as executor option, as compute() keyword, or (only for 2) left to the default
+    rt = int(case.get("retries", 2))
+    via = case.get("retries_via", "default" if rt == 2 else "executor")
+    if via == "default" and rt != 2:
+        via = "executor"
+    ckw = {}
+    if via == "executor":
+        opts["retries"] = rt
+    elif via == "compute":
+        ckw["retries"] = rt
+    labels = {f"B:prog={case['prog']}", f"B:op={case['op']}", f"B:f={case['f']}", f"B:optimize={int(og)}", f"B:retries={rt}:via={via}"}
 
     def compute(cbs=None):
         ex = create_executor("threads", dict(opts))
-        return arr.compute(executor=ex, optimize_graph=og, callbacks=cbs)
+        return arr.compute(executor=ex, optimize_graph=og, callbacks=cbs, **ckw)
 
     # discovery run (fault-free) on the same lazy array => same array names / keys in the faulted run
     st, r0 = _with_watchdog(compute, 600)
@@ -629,9 +641,9 @@ def check_fault(case) -> Outcome:
         return Outcome(labels=tuple(labels | {"B:inconclusive-watchdog"}))
     injected = store.state.fault_count.get((op, key), 0)
     ok_access = sum(1 for rec in store.state.log if rec[1] == op and rec[2] == key)
-    detail = f"prog={case['prog']} optimize_graph={og} key={key} op={op} f={f}: injected={injected} successful accesses={ok_access}"
+    detail = f"prog={case['prog']} optimize_graph={og} retries={rt} (via {via}) key={key} op={op} f={f}: injected={injected} successful accesses={ok_access}"
     fails = []
-    if f <= 2:
+    if f <= rt:
         labels.add("B:expect-success")
         if st == "exc":
             fails.append(Failure(f"B:retryable-fault-not-survived:{type(r).__name__}", detail + f" raised {r!r}"))
@@ -656,23 +668,33 @@ def check_fault(case) -> Outcome:
         else:
             if not isinstance(r, InjectedIOError):
                 labels.add("B:oserror-subclass-other")
-            if injected != 3:
-                fails.append(Failure("B:attempts-not-retries+1", detail + " (expected exactly 3 attempts on the key)"))
+            if injected != rt + 1:
+                fails.append(Failure("B:attempts-not-retries+1", detail + f" (expected exactly {rt + 1} attempt(s) on the key)"))
     return Outcome(nontrivial=f > 0, labels=tuple(sorted(labels)), failures=tuple(fails))
 
 
 def fault_cases():
     from hypothesis import strategies as st
 
-    return st.fixed_dictionaries({
-        "kind": st.just("fault"),
-        "prog": st.sampled_from(PROGS),
-        "op": st.sampled_from(["get", "set"]),
-        "key_index": st.integers(0, 11),
-        "f": st.sampled_from([0, 1, 2, 2, 3, 3, 4]),
-        "optimize_graph": st.booleans(),
-        "batch_size": st.sampled_from([None, None, 2]),
-    })
+    @st.composite
+    def gen(draw):
+        rt = draw(st.sampled_from([0, 0, 1, 2, 2]))
+        via = draw(st.sampled_from(["executor", "compute"] + (["default"] if rt == 2 else [])))
+        # fault counts around the budget boundary: last allowed attempt succeeds / budget just exhausted
+        f = draw(st.sampled_from([0, rt, rt, rt + 1, rt + 1, rt + 2]))
+        return {
+            "kind": "fault",
+            "prog": draw(st.sampled_from(PROGS)),
+            "op": draw(st.sampled_from(["get", "set"])),
+            "key_index": draw(st.integers(0, 11)),
+            "f": f,
+            "retries": rt,
+            "retries_via": via,
+            "optimize_graph": draw(st.booleans()),
+            "batch_size": draw(st.sampled_from([None, None, 2])),
+        }
+
+    return gen()
 
 
 # --------------------------------------------------------------------------- shards
@@ -690,7 +712,7 @@ def shards(tier):
         out = [{"kind": "script", "name": f"mixed{i}", "profile": "mixed", "n": 1500} for i in range(3)]
         out += [{"kind": "script", "name": f"backups{i}", "profile": "backups", "n": 1500} for i in range(3)]
         out += [{"kind": "script", "name": "nobackups0", "profile": "nobackups", "n": 1200}]
-        out += [{"kind": "fault", "name": "fault0", "n": 20}]
+        out += [{"kind": "fault", "name": "fault0", "n": 24}]
         # seed-independent floor: one scripted input + fillers, all 3x3 x 3x3 scripts, reduced option set
         out += [{"kind": "enum", "name": "enum-quick", "slices": [{"m": 1, "retries": r, "use_backups": True, "reduced": True} for r in (0, 1, 2)]}]
         return out
